@@ -206,7 +206,25 @@ def run(ctx):
         dtn, buffer, kinds = WRITE_SPECS[fname]
         recs = gen(fname, r, n)
         DNA_ENCODED[0] = r.random() < 0.4
+        fields_ = list(fmt.fields)
+        if DNA_ENCODED[0] and "sequence" in fields_ and r.random() < 0.8:
+            # the reads are held in the DNA alphabet by the caller: letters outside it are redrawn (lengths stay, so CIGARs and qualities still fit)
+            si = fields_.index("sequence")
+            for rec in recs:
+                seq_ = "".join(ch if ch in "ACGT" else r.choice("ACGT") for ch in rec["values"]["sequence"].upper())
+                rec["values"]["sequence"] = seq_
+                rec["texts"][si] = seq_
+        if "score" in fields_ and fname in ("bed6", "bed12", "narrowpeak") and recs and r.random() < 0.2:
+            # a score column of zeros only (and, through the pieces written below, pieces whose scores are all zero)
+            ci = fields_.index("score")
+            for rec in recs:
+                if isinstance(rec["values"]["score"], int):
+                    rec["values"]["score"] = 0
+                    rec["texts"][ci] = "0"
+            ctx.count("tables_with_all_scores_zero")
         t = build_table(fmt, recs)
+        if hasattr(t, "sequence") and hasattr(t.sequence, "encoding") and not t.sequence.encoding.is_base_encoding() and n >= 2:
+            ctx.count("tables_with_reads_held_in_the_dna_alphabet")
         exp_recs = canonical_records(fmt, recs)
         header = ""
         if fname.startswith("vcf"):
